@@ -29,27 +29,53 @@ def _gen_spec_table():
     return config_tables.generate_spec_table()
 
 
-GEN = [_gen_time_suffix, _gen_spec_table]
+def _gen_color_names():
+    from translate import config_tables
+    return config_tables.generate_color_names()
+
+
+def _gen_bool_words():
+    from translate import config_tables
+    return config_tables.generate_bool_words()
+
+
+def _gen_spec_sections():
+    from translate import config_tables
+    return config_tables.generate_spec_sections()
+
+
+GEN = [_gen_time_suffix, _gen_spec_table, _gen_color_names, _gen_bool_words, _gen_spec_sections]
 MANIFEST = {
-    "text": "Proof on a Lean model of config validation: for every scalar validator (int, float, num with ranges, bool, str, lstr, ms, secs, enum, pow2, bool_int) and every YAML scalar, validate_item returns an error or a value of the declared type inside the declared range (NaN is in no range); section validation rejects unknown keys, returns every spec key (defaults filled) and keeps provided keys, for every spec and source; the time-suffix table and the spec's (section, key, validator) table are regenerated from utility_functions.py / config_spec.yaml on every run and the theorems are re-checked against them (every float-converted suffix is rounded, not truncated; slice length = suffix length; no branch shadowed; every validator of the spec is known to the model); value*unit is recovered exactly for every suffix whenever the product is a whole number of ms below 2^49, assuming only correctly rounded float parse/multiply. Tied to the real ConfigValidator by correspondence on every run.",
-    "note": "Trusted: Lean kernel + standard axioms; translate/config_tables.py (ast/yaml -> tables); the hand model Model/Config.lean (differentially tested); Python's int()/float() string parsing is modelled for decimal literals only (other strings are compared as 'unmodelled' and judged by the oracle alone); IEEE arithmetic enters as an abstract rounding function with relative error 2^-53. Not modelled: machine(...), subconfig, template_*, event_handler, color, gain validators (opaque: the oracle checks key completeness only).",
-    "technique": "regenerated tables (ast / yaml -> Lean) + Lean theorems (case analysis, decide +kernel over tables, real-number rounding lemma) + differential correspondence with the real ConfigValidator",
+    "text": "Proof on a Lean model of config validation: (1) for every scalar validator (int, float, num with ranges, bool, str, lstr, ms, secs, enum, pow2, bool_int) and every YAML scalar, validate_item returns an error or a value of the declared type inside the declared range (NaN is in no range); (2) the same for the extended validators - x_or_token, event_handler / event_posted strings, int_from_hex, color (names regenerated from NAMED_RGB_COLORS, hex, r,g,b lists), gain, the six template_* builders (constant of the right type / expression template of the right class / rejected), machine(<collection>) device references (accepted only if the device exists) - for every environment; (3) _validate_config over trees with a depth bound: for every spec table, section (with base specs) and source, the result is rejected or is a dict that lists every non-ignored key of the merged spec, each typed - lists, sets, dicts, event-handler dicts element-wise, subconfig(...) values and nested list-of-dict sections recursively - and holds no unknown key; an unknown key / a non-dict source is rejected at every depth; (4) tables regenerated from the source on every run and re-checked: the time-suffix chain (rounded not truncated, slice = suffix length, no shadowed branch, units), the bool word lists, the colour names (all inside 0..255), every (section, key, validator) of config_spec.yaml (every validator modelled except kivycolor; every subconfig target exists; the substring test on __valid_in__ agrees with list membership for machine / mode); value*unit is recovered exactly for every time suffix whenever the product is a whole number of ms below 2^49, assuming only correctly rounded float parse/multiply. Tied to the real ConfigValidator by correspondence on every run (validator x value matrix run twice for history independence, item types, time strings, every section of the spec flat and with generated nested sources).",
+    "note": "Trusted: Lean kernel + standard axioms; translate/config_tables.py (ast/yaml -> tables); the hand models Model/Config.lean and Model/ConfigExt.lean (differentially tested; recursion by section name uses a depth bound - out of fuel is answered 'unmodelled', never a verdict); Python's int()/float() string parsing is modelled for ASCII literals incl. underscores and exponents up to 1e300 (other strings are compared as 'unmodelled' and judged by the oracle alone); Python's own expression parser (ast.parse) decides whether a template text is accepted - its verdict is an input of the model; IEEE arithmetic enters as an abstract rounding function with relative error 2^-53; decibel gains below 0 dB (pow) and str() of floats / containers are 'unmodelled'. Not modelled: kivycolor (mpf-mc), ruamel.yaml, dict ordering (results are compared sorted), non-string dict keys that collide (1 / True), config_players' expanded forms.",
+    "technique": "regenerated tables (ast / yaml -> Lean) + Lean theorems (case analysis per validator, induction on depth bound and key list for the recursive section validation, decide +kernel over tables, real-number rounding lemma) + differential correspondence with the real ConfigValidator",
     "translated": True,
 }
 RULE = ("(a) validator x value matrix: every scalar validator (with and without ranges / enum lists) on None, bools, ints, "
-        "floats incl. NaN/inf, numeric and non-numeric strings, lists, dicts; (b) time strings: decimal literal x "
-        "suffix (ms msec s sec m h d, any case) incl. boundary decimals (1.001, 0.0005, 1.1, 4.35); (c) every section of "
-        "config_spec.yaml whose required keys are scalar: generated source with provided / omitted / unknown keys. "
+        "floats incl. NaN/inf, numeric and non-numeric strings (bool words, underscores, exponents, hex), lists, dicts; (a') the "
+        "extended validators (tokens, event strings, hex ints, colours, gains, templates, device references, dict / list, "
+        "subconfig) on a 170-value matrix; both matrices run twice (table order, shuffled) for history independence; "
+        "(b) time strings: decimal literal x suffix (ms msec s sec m h d, any case) incl. boundary decimals; (c) every section "
+        "of config_spec.yaml whose required keys are scalar: generated source with provided / omitted / unknown keys; (c') "
+        "every section of the spec with generated NESTED sources (subconfig values, lists / dicts of subconfigs, nested "
+        "list-of-dict sections, device names of a real machine), an unknown key / an omitted required key / an ill-typed "
+        "value planted at random depth; (d) item types list / set / dict / event_handler over the extended validators; "
+        "(e) ConfigProcessor._check_sections for every section x {machine, mode}. "
         "non-trivial = the value is not the validator's plain happy-path literal (needs conversion, is out of range, "
-        "malformed or None) or the source has an unknown/omitted key; distinct = canonical JSON of the case")
-TRUSTED = ["modelled, not verified: Python int()/float() parsing beyond decimal literals, ruamel.yaml, the non-scalar "
-           "validators (machine, subconfig, templates, event handlers, colours)"]
-ASSUMPTIONS = ["float parse and multiply are correctly rounded (relative error <= 2^-53) - hypothesis of time_value_times_unit"]
+        "malformed or None) or the source has an unknown/omitted key or is nested; distinct = canonical JSON of the case")
+TRUSTED = ["modelled, not verified: Python int()/float() parsing beyond ASCII literals, ast.parse (template syntax verdict is "
+           "an input), pow() for decibel gains, ruamel.yaml, CPython dict order, kivycolor"]
+ASSUMPTIONS = ["float parse and multiply are correctly rounded (relative error <= 2^-53) - hypothesis of time_value_times_unit",
+               "depth of nesting below the model's fuel (8) - deeper sources are answered 'unmodelled' and judged by the oracle alone"]
 
 NAN = float("nan")
 VALUES = [None, True, False, 0, 1, -1, 7, 16, 255, 2.5, -0.5, 0.5, 1.0, 1000.0, NAN, float("inf"), "", "abc", "12", " 12 ",
           "1.5", "-3", "0.25", "1_000", "0x10", "yes", "No", "on", "off", "true", "F", "1s", "100ms", "1.001s", "2m",
-          "none", "None", "16", "3", "a", "B", "Ab", [1, 2], {"a": 1}, "1e3", "nan", "-0.0", "٣", "1.", ".5", "+5", "2.7"]
+          "none", "None", "16", "3", "a", "B", "Ab", [1, 2], {"a": 1}, "1e3", "nan", "-0.0", "٣", "1.", ".5", "+5", "2.7",
+          # session 3: bool word forms, int / float / num literal boundaries
+          "Yes", "ON", "t", "T", "enable", "Disable", "f", "y", "n", "1", "0", 2, 0.0, -0.0, "1_0", "_1", "1_", "1__0", "1_0.5", "1._5",
+          "0X1F", "0b1", "1E3", "1e+3", "1.5e-3", "1e", "e3", "1e400", "-1e400", "1e-400", "inf", "-inf", "Infinity", "+inf", "infinit",
+          ".", "-", "+", "- 1", "1 0", "\t7\n", "0.1e1", "00012", "-00", "1e0", "12e-1", float("-inf")]
 VALIDATORS = ["int", "int(0,10)", "int(NONE,5)", "int(-1,NONE)", "float", "float(0,1)", "float(NONE,0.5)", "float(-1,1)",
               "num", "num(0,10)", "bool", "str", "lstr", "ms", "secs", "enum(a,b,none)", "enum(yes,no)", "enum(1,2,ab)",
               "pow2", "bool_int"]
@@ -484,6 +510,10 @@ def run(ctx):
         section_cases(ctx, vm, model, ctx.rng("sections"), ctx.n(500, 6000))
     finally:
         vm.stop()
+    try:
+        from harness.common import cfgext_c12
+        cfgext_c12.run_ext(ctx, model, ctx.n(1500, 60000))
+    finally:
         if model is not None:
             model.close()
 
@@ -492,6 +522,22 @@ def replay(ctx, rep):
     from mpf.core.config_validator import ValidationPath
     from mpf.core.utility_functions import Util
     c = rep["case"]
+    if c["kind"] in ("xitem", "xcitem", "xsec", "valid_in"):
+        if str(rep.get("signature", "")).startswith("history-dependent"):
+            from harness.common import cfgext_c12
+            from harness.common.vmachine import VMachine
+            vm = VMachine(cfgext_c12.MACHINE_CONFIG).start()
+            try:
+                o = cfgext_c12.Oracle(ctx, vm.machine)
+                env = cfgext_c12.env_of(vm.machine, o.spec)
+                VP = ValidationPath(ValidationPath(None, "verif"), "item")
+                cfgext_c12.ext_matrix(ctx, vm.machine.config_validator, None, cfgext_c12.Canon(vm.machine, env), o, VP,
+                                      ctx.rng("xmatrix"))
+            finally:
+                vm.stop()
+            return
+        from harness.common import cfgext_c12
+        return cfgext_c12.replay_ext(ctx, c)
     if c["kind"] == "time":
         res = outcome(lambda: Util.string_to_ms(c["string"]))
         m = re.fullmatch(r"(-?\d+(?:\.\d+)?)([a-zA-Z]*)", c["string"])
